@@ -9,6 +9,12 @@ import Mathlib.Tactic.Linarith
 namespace Lemmas.Evaluate
 open Model.Evaluate
 
+theorem divE_ok (a b : Rat) (h : b ≠ 0) : Py.divE a b = .ok (a / b) := by
+  unfold Py.divE; rw [if_neg h]
+
+theorem divE_zero (a : Rat) : Py.divE a 0 = .error "div0" := by
+  unfold Py.divE; rw [if_pos rfl]
+
 /-- the sum of the instances on the days whose year is `y` -/
 def yearSum (years inst : List Int) (y : Int) : Int :=
   (((years.zip inst).filter (fun p => decide (p.1 = y))).map (·.2)).sum
@@ -101,12 +107,42 @@ theorem runs_values_sorted : ∀ (l : List Int), l.Pairwise (· ≤ ·) → ((Py
           · exact (List.pairwise_cons.mp hs'.2).1 v h
         omega
 
+theorem runs_values_complete : ∀ (l : List Int) (v : Int), v ∈ l → v ∈ (Py.runs l).map (·.1)
+  | [], v, h => by simp at h
+  | a :: t, v, h => by
+    cases t with
+    | nil => rw [runs_singleton]; simpa using h
+    | cons b t' =>
+      obtain ⟨n, r, hr⟩ := runs_head b t'
+      have ih := runs_values_complete (b :: t') v
+      rw [hr] at ih
+      by_cases hab : a = b
+      · subst hab
+        rw [runs_cons_same a _ _ _ hr]
+        simp only [List.map_cons, List.mem_cons] at h ih ⊢
+        rcases h with h | h | h
+        · exact Or.inl h
+        · exact ih (Or.inl h)
+        · exact ih (Or.inr h)
+      · rw [runs_cons_diff a b _ _ _ hr hab]
+        simp only [List.map_cons, List.mem_cons] at h ih ⊢
+        rcases h with h | h | h
+        · exact Or.inl h
+        · exact Or.inr (ih (Or.inl h))
+        · exact Or.inr (ih (Or.inr h))
+
+theorem runs_replicate (y : Int) : ∀ n : Nat, Py.runs (List.replicate (n + 1) y) = [(y, n + 1)]
+  | 0 => runs_singleton y
+  | n + 1 => by
+    rw [List.replicate_succ]
+    exact runs_cons_same y _ _ _ (runs_replicate y n)
+
 /-! ### per-year sums -/
 
 theorem yearSum_cons (a : Int) (t : List Int) (i0 : Int) (x : List Int) (y : Int) :
     yearSum (a :: t) (i0 :: x) y = (if a = y then i0 else 0) + yearSum t x y := by
   unfold yearSum
-  by_cases h : a = y <;> simp [List.filter_cons, h]
+  by_cases h : a = y <;> simp [h]
 
 theorem yearSum_not_mem (l x : List Int) (y : Int) (h : y ∉ l) : yearSum l x y = 0 := by
   unfold yearSum
@@ -191,5 +227,41 @@ theorem uniqueCounts_sorted (l : List Int) (hs : l.Pairwise (· ≤ ·)) :
     List.mergeSort_of_pairwise (hs.imp (fun h => by simpa using h))
   unfold Py.uniqueCounts Py.uniqueSorted
   rw [this]; exact ⟨rfl, rfl⟩
+
+/-! ### co-occurrence counting of `_calculate_chi` -/
+
+/-- a 0/1 array (what `calculate_instances_of_threshold_exceedance` returns) -/
+def Bin (l : List Int) : Prop := ∀ v ∈ l, v = 0 ∨ v = 1
+
+theorem cooccurrence_cons (a b : Int) (t u : List Int) :
+    cooccurrence (a :: t) (b :: u) = (if (if a = 0 then 2 else a) = b then 1 else 0) + cooccurrence t u := by
+  unfold cooccurrence
+  simp only [List.map_cons, List.zipWith_cons_cons, List.sum_cons]
+  by_cases h : (if a = 0 then (2 : Int) else a) = b <;> simp [h]
+
+/-- on 0/1 arrays the "replace 0 by 2, then compare" trick counts exactly the steps where both metrics occur -/
+theorem cooccurrence_eq_and : ∀ (i1 i2 : List Int), Bin i1 → Bin i2 →
+    cooccurrence i1 i2 = (List.zipWith (· * ·) i1 i2).sum
+  | [], _, _, _ => by simp [cooccurrence]
+  | _ :: _, [], _, _ => by simp [cooccurrence]
+  | a :: t, b :: u, h1, h2 => by
+    rw [cooccurrence_cons, cooccurrence_eq_and t u (fun v hv => h1 v (by simp [hv])) (fun v hv => h2 v (by simp [hv]))]
+    simp only [List.zipWith_cons_cons, List.sum_cons]
+    congr 1
+    rcases h1 a (by simp) with ha | ha <;> rcases h2 b (by simp) with hb | hb <;> subst ha <;> subst hb <;> decide
+
+theorem cooccurrence_self : ∀ (i : List Int), Bin i → cooccurrence i i = i.sum
+  | [], _ => by simp [cooccurrence]
+  | a :: t, h => by
+    rw [cooccurrence_cons, cooccurrence_self t (fun v hv => h v (by simp [hv]))]
+    simp only [List.sum_cons]
+    congr 1
+    rcases h a (by simp) with ha | ha <;> subst ha <;> decide
+
+theorem bin_sum_nonneg : ∀ (i : List Int), Bin i → 0 ≤ i.sum
+  | [], _ => by simp
+  | a :: t, h => by
+    have := bin_sum_nonneg t (fun v hv => h v (by simp [hv]))
+    rcases h a (by simp) with ha | ha <;> subst ha <;> simp only [List.sum_cons] <;> omega
 
 end Lemmas.Evaluate
